@@ -89,6 +89,9 @@ impl UBig {
         src: &str,
         default_radix: Digit,
     ) -> Result<(UBig, Digit), ParseError> {
+        if !is_radix_valid(default_radix) {
+            return Err(ParseError::UnsupportedRadix);
+        }
         if let Some(bin) = src.strip_prefix("0b") {
             UBig::from_str_radix_no_sign(bin, 2).map(|v| (v, 2))
         } else if let Some(oct) = src.strip_prefix("0o") {
